@@ -10,7 +10,7 @@
 //!   every schedule entry lets the named worker perform exactly ONE atomic operation
 //!   (entries naming a finished or unknown worker are skipped); afterwards worker 0 runs
 //!   to completion, then worker 1, ...
-//! trace = per entry [op (0 skipped,1 load,2 store,3 cas,4 rmw), return value of the call
+//! trace = return values of the prelude calls, then per entry [op (0 skipped,1 load,2 store,3 cas,4 rmw), return value of the call
 //!         completed by this operation or -1, balance(), ceiling]
 //!         then per worker [atomic steps, return value of every call], then [balance(), ceiling]
 use std::cell::Cell;
@@ -205,9 +205,7 @@ fn run(s: &[i128]) -> Vec<i128> {
     let (results, steps);
     if kind == 0 {
         let b = TokenBucketBudget::new(10.0, p[0] as usize, p[1] as usize);
-        for c in &pre {
-            budget_call(&b, &|| b.balance() as i128, *c);
-        }
+        let pre_rets: Vec<i128> = pre.iter().map(|c| budget_call(&b, &|| b.balance() as i128, *c)).collect();
         let r = run_threads(
             &b,
             &progs,
@@ -215,7 +213,8 @@ fn run(s: &[i128]) -> Vec<i128> {
             &|b: &TokenBucketBudget, c| budget_call(b, &|| b.balance() as i128, c),
             &|b: &TokenBucketBudget| vec![b.balance() as i128, 0],
         );
-        tr = r.0;
+        tr = pre_rets;
+        tr.extend(r.0);
         results = r.1;
         steps = r.2;
         for (i, rs) in results.iter().enumerate() {
@@ -226,9 +225,7 @@ fn run(s: &[i128]) -> Vec<i128> {
     } else {
         let factor = if p[5] == 0 { 0.0 } else { p[4] as f64 / p[5] as f64 };
         let b = AimdBudget::new(p[0] as usize, p[1] as usize, p[2] as usize, p[3] as usize, factor);
-        for c in &pre {
-            budget_call(&b, &|| b.current_max() as i128, *c);
-        }
+        let pre_rets: Vec<i128> = pre.iter().map(|c| budget_call(&b, &|| b.current_max() as i128, *c)).collect();
         let r = run_threads(
             &b,
             &progs,
@@ -236,7 +233,8 @@ fn run(s: &[i128]) -> Vec<i128> {
             &|b: &AimdBudget, c| budget_call(b, &|| b.current_max() as i128, c),
             &|b: &AimdBudget| vec![b.balance() as i128, b.current_max() as i128],
         );
-        tr = r.0;
+        tr = pre_rets;
+        tr.extend(r.0);
         results = r.1;
         steps = r.2;
         for (i, rs) in results.iter().enumerate() {
